@@ -1796,3 +1796,375 @@ Proof.
   - split; [exact (C8 corr p k Ek)|]. unfold check_case_C08 in Ek. rewrite E in Ek.
     destruct (check_from _ _ _ _ _ _ _ _ _ _ _ _ _ _) as [[[[r1 r2] r3] r4] r5]. inversion Ek; subst. exact (proj2 G).
 Qed.
+
+(** ** C08, clause 3: one-shot contexts *)
+Record NR (s : state) : Prop := {
+  n_b : forall id x, get id (ctxs s) = Some x -> x_rep x = false -> x_batch x <= 1;
+  n_m : forall id x, get id (ctxs s) = Some x -> x_rep x = false -> 1 <= x_batch x -> has id (newmark s) = false;
+  n_s : forall id x, get id (ctxs s) = Some x -> x_rep x = false -> 1 <= x_batch x -> x_state x <> 1
+}.
+
+Lemma NR_same s t : ctxs t = ctxs s -> newmark t = newmark s -> NR s -> NR t.
+Proof. intros A B [I1 I2 I3]. constructor; rewrite ?A, ?B; assumption. Qed.
+
+(** a step that touches the contexts and the new-batch markers at one id only *)
+Lemma NR_upd s t id :
+  NR s ->
+  (forall id0, id0 <> id -> get id0 (ctxs t) = get id0 (ctxs s) /\ has id0 (newmark t) = has id0 (newmark s)) ->
+  (forall x', get id (ctxs t) = Some x' -> x_rep x' = false ->
+     x_batch x' <= 1 /\ (1 <= x_batch x' -> has id (newmark t) = false /\ x_state x' <> 1)) ->
+  NR t.
+Proof.
+  intros [I1 I2 I3] Hoth Hid. constructor; intros id0 x Hg Hr.
+  - destruct (eq_dec id0 id) as [->|Hne]; [exact (proj1 (Hid x Hg Hr))|]. rewrite (proj1 (Hoth id0 Hne)) in Hg. exact (I1 id0 x Hg Hr).
+  - intros Hb. destruct (eq_dec id0 id) as [->|Hne]; [exact (proj1 (proj2 (Hid x Hg Hr) Hb))|].
+    rewrite (proj2 (Hoth id0 Hne)). rewrite (proj1 (Hoth id0 Hne)) in Hg. exact (I2 id0 x Hg Hr Hb).
+  - intros Hb. destruct (eq_dec id0 id) as [->|Hne]; [exact (proj2 (proj2 (Hid x Hg Hr) Hb))|].
+    rewrite (proj1 (Hoth id0 Hne)) in Hg. exact (I3 id0 x Hg Hr Hb).
+Qed.
+
+Ltac oth Hne := split; simpl; rewrite ?get_del_other, ?get_set_other, ?has_del_other, ?has_set_other by exact Hne; reflexivity.
+
+Lemma NR_keep s t id x :
+  NR s -> get id (ctxs s) = Some x ->
+  (forall id0, id0 <> id -> get id0 (ctxs t) = get id0 (ctxs s) /\ has id0 (newmark t) = has id0 (newmark s)) ->
+  (forall x', get id (ctxs t) = Some x' ->
+     x_rep x' = x_rep x
+     /\ (x_rep x = false -> x_batch x' = x_batch x /\ (x_state x' = 1 -> x_state x = 1)
+                            /\ (has id (newmark t) = true -> has id (newmark s) = true))) ->
+  NR t.
+Proof.
+  intros Hn Hg Hoth Hid. apply (NR_upd s t id Hn Hoth). intros x' Hg' Hr'.
+  destruct (Hid x' Hg') as (Er & Hk). rewrite Er in Hr'. destruct (Hk Hr') as (Eb & Es & Em). rewrite Eb.
+  split; [exact (n_b _ Hn id x Hg Hr')|]. intros Hb. split.
+  - destruct (has id (newmark t)) eqn:Eh; [|reflexivity]. rewrite (n_m _ Hn id x Hg Hr' Hb) in Em. specialize (Em eq_refl). discriminate.
+  - intros E1. exact (n_s _ Hn id x Hg Hr' Hb (Es E1)).
+Qed.
+
+Lemma NR_create c s txh svc provs cons inok capd capa timeout rep freq total st thr md s' id :
+  create_context c s txh svc provs cons inok capd capa timeout rep freq total st thr md = Some (s', id) -> NR s -> NR s'.
+Proof.
+  intros H Hn. unfold create_context in H. repeat dmn H; inversion H; subst; clear H;
+    (eapply (NR_upd s _ (txh, iidx s)); [exact Hn|intros id0 Hne; oth Hne|]);
+    intros x' Hg Hr; simpl in Hg; rewrite get_set_same in Hg; inversion Hg; subst; simpl; split; try lia; intros; lia.
+Qed.
+
+Lemma NR_respond c s rid prov kind s' : respond c s rid prov kind = Okk s' -> NR s -> NR s'.
+Proof.
+  intros H Hn. unfold respond in H. destruct rid as [[[id batch] hh] ii].
+  destruct ((0 <=? prov) && negb (kind =? 2)); cbv beta iota zeta delta [negb] in H; [|discriminate].
+  match type of H with context [@get reqid request ?i ?k (reqs s)] =>
+    destruct (@get reqid request i k (reqs s)) as [q|] eqn:Eq end; [|discriminate].
+  destruct (get id (ctxs s)) as [x|] eqn:Ex; [|discriminate].
+  destruct (q_prov q =? prov) eqn:Ep; cbv beta iota zeta delta [negb] in H; [|discriminate].
+  destruct (q_active q); cbv beta iota zeta delta [negb] in H; [|discriminate].
+  destruct (add_earned_fee c s prov (q_fd q) (q_fee q)) as [s1|] eqn:Ef; [|discriminate].
+  assert (F : newmark s1 = newmark s /\ ctxs s1 = ctxs s).
+  { unfold add_earned_fee in Ef. destruct (send _ _ _ _ _); [|discriminate].
+    destruct (q_fee q <? _); [discriminate|]. inversion Ef; subst. split; reflexivity. }
+  destruct F as (F3 & F5).
+  destruct (x_bresp (cx_bresp x (x_bresp x + 1)) =? x_breq (cx_bresp x (x_bresp x + 1)));
+    [destruct (x_mod (cx_bresp x (x_bresp x + 1)))|]; inversion H; subst s'; clear H;
+    (eapply (NR_keep s _ id x Hn Ex);
+      [intros id0 Hne; split; simpl; try (unfold callback; simpl; rewrite F5, Ex; simpl); rewrite ?F3, ?F5; rewrite ?get_set_other by exact Hne; reflexivity
+      |intros x' Hg; simpl in Hg; try (unfold callback in Hg; simpl in Hg; rewrite F5, Ex in Hg; simpl in Hg); rewrite get_set_same in Hg; inversion Hg; subst x'; simpl;
+       split; [reflexivity|intros _; split; [reflexivity|split; [tauto|try (unfold callback; simpl; rewrite F5, Ex; simpl); rewrite F3; tauto]]]]).
+Qed.
+
+Lemma NR_pause s id cons s' : k_pause s id cons = Okk s' -> NR s -> NR s'.
+Proof.
+  intros H Hn. unfold k_pause in H. destruct (get id (ctxs s)) as [x|] eqn:Ex; [|discriminate].
+  destruct (x_mod x && _); [discriminate|]. destruct (x_rep x) eqn:Er; cbn [negb] in H; [|discriminate].
+  destruct (negb (x_state x =? 0)); [discriminate|]. inversion H; subst; clear H.
+  eapply (NR_keep s _ id x Hn Ex); [intros id0 Hne; oth Hne|].
+  intros x' Hg. simpl in Hg. rewrite get_set_same in Hg. inversion Hg; subst. split; [reflexivity|]. rewrite Er. discriminate.
+Qed.
+
+Lemma NR_kill s id cons s' : k_kill s id cons = Okk s' -> NR s -> NR s'.
+Proof.
+  intros H Hn. unfold k_kill in H. destruct (get id (ctxs s)) as [x|] eqn:Ex; [|discriminate].
+  destruct (x_mod x && _); [discriminate|]. destruct (x_rep x) eqn:Er; cbn [negb] in H; [|discriminate].
+  inversion H; subst; clear H.
+  eapply (NR_keep s _ id x Hn Ex); [intros id0 Hne; oth Hne|].
+  intros x' Hg. simpl in Hg. rewrite get_set_same in Hg. inversion Hg; subst. split; [reflexivity|]. rewrite Er. discriminate.
+Qed.
+
+Lemma NR_start s id cons s' : k_start s id cons = Okk s' -> NR s -> NR s'.
+Proof.
+  intros H Hn. unfold k_start in H. destruct (get id (ctxs s)) as [x|] eqn:Ex; [|discriminate].
+  destruct (x_mod x && _); [discriminate|]. destruct (x_state x =? 1) eqn:Es; cbn [negb] in H; [|discriminate]. apply Z.eqb_eq in Es.
+  assert (Hb : x_rep x = false -> x_batch x <= 0).
+  { intros Hr. destruct (Z_le_gt_dec 1 (x_batch x)) as [Hge|Hlt]; [|lia]. exfalso. exact (n_s _ Hn id x Ex Hr Hge Es). }
+  inversion H; subst; clear H.
+  eapply (NR_upd s _ id Hn).
+  - intros id0 Hne. destruct (negb _ && negb _); oth Hne.
+  - intros x' Hg Hr. assert (E : x' = cx_state x 0).
+    { destruct (negb _ && negb _); simpl in Hg; rewrite get_set_same in Hg; congruence. }
+    subst x'. simpl in Hr |- *. specialize (Hb Hr). split; [lia|intros; lia].
+Qed.
+
+Lemma NR_update_context c s id provs capd capa timeout freq total cons s' :
+  update_context c s id provs capd capa timeout freq total cons = Okk s' -> NR s -> NR s'.
+Proof.
+  intros H Hn. unfold update_context in H. destruct (negb _); [discriminate|]. destruct (negb _); [discriminate|].
+  destruct (get id (ctxs s)) as [x|] eqn:Ex; [|discriminate].
+  repeat match type of H with (if ?g then Rejj else _) = _ => destruct g; [discriminate|] end.
+  cbv zeta in H.
+  repeat match type of H with (if ?g then Rejj else _) = _ => destruct g; [discriminate|] end.
+  inversion H; subst; clear H.
+  eapply (NR_keep s _ id x Hn Ex); [intros id0 Hne; oth Hne|].
+  intros x' Hg. simpl in Hg. rewrite get_set_same in Hg. inversion Hg; subst; clear Hg.
+  destruct (capa =? 0); destruct provs; destruct (0 <? _); destruct (0 <? _); destruct (total =? 0); simpl;
+    (split; [reflexivity|intros _; split; [reflexivity|split; tauto]]).
+Qed.
+
+Ltac nr_same H := repeat dmn H; inversion H; subst; clear H; apply NR_same; reflexivity.
+
+Lemma NR_exec_msg_plain c s txh m s' : exec_msg_plain c s txh m = Okk s' -> NR s -> NR s'.
+Proof.
+  intros H Hn. destruct m; simpl in H.
+  - unfold define in H. revert Hn. nr_same H.
+  - unfold bind in H. revert Hn. nr_same H.
+  - unfold update_binding in H. revert Hn. nr_same H.
+  - unfold set_withdraw in H. revert Hn. nr_same H.
+  - unfold enable in H. revert Hn. nr_same H.
+  - unfold disable in H. revert Hn. nr_same H.
+  - unfold refund_deposit in H. revert Hn. nr_same H.
+  - unfold call in H. destruct (negb _); [discriminate|].
+    destruct (create_context _ _ _ _ _ _ _ _ _ _ _ _ _ _ _ _) as [[s1 id]|] eqn:E; [|discriminate].
+    inversion H; subst. eapply NR_create; eassumption.
+  - eapply NR_respond; eassumption.
+  - unfold msg_ctl in H. repeat (destruct (negb _); [discriminate|]). eapply NR_pause; eassumption.
+  - unfold msg_ctl in H. repeat (destruct (negb _); [discriminate|]). eapply NR_start; eassumption.
+  - unfold msg_ctl in H. repeat (destruct (negb _); [discriminate|]). eapply NR_kill; eassumption.
+  - eapply NR_update_context; eassumption.
+  - unfold withdraw in H. revert Hn. nr_same H.
+Qed.
+
+Lemma NR_call_module c s txh svc provs cons inok capd capa timeout rep freq total s' :
+  call_module c s txh svc provs cons inok capd capa timeout rep freq total = Okk s' -> NR s -> NR s'.
+Proof.
+  intros H Hn.
+  destruct (call_module_shape _ _ _ _ _ _ _ _ _ _ _ _ _ _ H) as (s1 & id & x & q' & E1 & _ & Ex & _ & Xb & _ & _ & C & _ & _ & _ & _ & Nm & _).
+  pose proof (NR_create _ _ _ _ _ _ _ _ _ _ _ _ _ _ _ _ _ _ E1 Hn) as N1.
+  eapply (NR_upd s1 s' id N1).
+  - intros id0 Hne. rewrite C, Nm. rewrite get_set_other by exact Hne. split; reflexivity.
+  - intros x' Hg Hr. rewrite C, get_set_same in Hg. inversion Hg; subst. simpl. rewrite Xb. split; [lia|intros; lia].
+Qed.
+
+Lemma NR_exec_msg c s txh m s' : exec_msg c s txh m = Okk s' -> NR s -> NR s'.
+Proof.
+  intros H Hn. destruct m; cbn [exec_msg] in H; try (eapply NR_exec_msg_plain; eassumption).
+  - destruct (module_served c svc); [discriminate|].
+    eapply (NR_exec_msg_plain c s txh (MBind svc prov depd depa pr qos optok owner)); eassumption.
+  - destruct (module_served c svc); [eapply NR_call_module; eassumption|].
+    eapply (NR_exec_msg_plain c s txh (MCall svc provs cons inok capd capa timeout rep freq total)); eassumption.
+Qed.
+
+Lemma NR_expired_handler c t id : NR t -> NR (expired_batch_handler c t id).
+Proof.
+  intros Hn. unfold expired_batch_handler. destruct (get id (ctxs t)) as [x|] eqn:Eg; [|exact Hn].
+  set (pr := if x_brun x then _ else (t, x)).
+  assert (Hpr : ctxs (fst pr) = ctxs t /\ newmark (fst pr) = newmark t
+                /\ x_rep (snd pr) = x_rep x /\ x_batch (snd pr) = x_batch x /\ x_state (snd pr) = x_state x).
+  { subst pr. destruct (x_brun x); [|repeat split; reflexivity]. cbn [fst snd].
+    destruct (expire_fold_qsame c x (filter (fun e => in_batch id (x_batch x) e && q_active (snd e)) (reqs t)) t) as (C & _ & Nm & _).
+    destruct (x_mod x).
+    - destruct (callback_qsame (fold_left (expire_request c x) (filter (fun e => in_batch id (x_batch x) e && q_active (snd e)) (reqs t)) t) id) as (C2 & _ & Nm2 & _).
+      split; [congruence|]. split; [congruence|]. repeat split; reflexivity.
+    - split; [exact C|]. split; [exact Nm|]. repeat split; reflexivity. }
+  destruct pr as [s1 x1]. cbn [fst snd] in Hpr. destruct Hpr as (C & Nm & Xr & Xb & Xs). cbv zeta.
+  eapply (NR_keep t _ id x Hn Eg).
+  - intros id0 Hne. destruct (x_state x1 =? 2); destruct (x_state x1 =? 0); try destruct (x_rep x1 && _); simpl; rewrite ?C, ?Nm;
+      rewrite ?get_del_other, ?get_set_other, ?has_set_other by exact Hne; split; reflexivity.
+  - intros x' Hg. destruct (x_state x1 =? 2); destruct (x_state x1 =? 0); try destruct (x_rep x1) eqn:Er1; cbn [andb] in Hg |- *;
+      try destruct ((x_total x1 <? 0) || (x_batch x1 <? x_total x1)); simpl in Hg |- *; rewrite ?C in Hg;
+      rewrite ?get_del_same, ?get_set_same in Hg; try discriminate Hg; inversion Hg; subst x'; (split; [congruence|]);
+      intros Hr; try congruence;
+      (split; [exact Xb|]); (split; [rewrite Xs; tauto|]); rewrite ?Nm; tauto.
+Qed.
+
+Lemma NR_new_handler t id : QInv t -> In (height t, id) (newq t) -> NR t -> NR (new_batch_handler t id).
+Proof.
+  intros Hq Hin Hn. unfold new_batch_handler. destruct (get id (ctxs t)) as [x|] eqn:Eg; [|exact Hn].
+  assert (Hm : has id (newmark t) = true) by (apply has_get; eexists; exact (q_new_mark _ Hq _ _ Hin)).
+  assert (Hb : x_rep x = false -> x_batch x <= 0).
+  { intros Hr. destruct (Z_le_gt_dec 1 (x_batch x)) as [Hge|Hlt]; [|lia]. rewrite (n_m _ Hn id x Eg Hr Hge) in Hm. discriminate. }
+  destruct (x_state x =? 0) eqn:Es.
+  2: { eapply (NR_keep t _ id x Hn Eg); [intros id0 Hne; oth Hne|]. intros x' Hg. simpl in Hg. rewrite Eg in Hg. inversion Hg; subst x'.
+       split; [reflexivity|]. intros _. split; [reflexivity|]. split; [tauto|]. simpl. rewrite has_del_same. discriminate. }
+  apply Z.eqb_eq in Es.
+  assert (Skip : NR (dequeue_new (skip_batch t id x) id)).
+  { eapply (NR_upd t _ id Hn); [intros id0 Hne; oth Hne|]. intros x' Hg Hr. simpl in Hg. rewrite get_set_same in Hg. inversion Hg; subst x'.
+    simpl in Hr |- *. specialize (Hb Hr). split; [lia|]. intros _. split; [apply has_del_same|lia]. }
+  destruct (filter_provs t x (x_provs x)) as [ps|]; [|exact Skip].
+  cbv zeta. destruct (_ && _); [|exact Skip].
+  destruct (debit_all _ _ _) as [l|].
+  - eapply (NR_upd t _ id Hn); [intros id0 Hne; oth Hne|]. intros x' Hg Hr. simpl in Hg. rewrite get_set_same in Hg. inversion Hg; subst x'.
+    simpl in Hr |- *. specialize (Hb Hr). split; [lia|]. intros _. split; [apply has_del_same|lia].
+  - eapply (NR_upd t _ id Hn).
+    + intros id0 Hne. unfold on_paused. destruct (x_mod x); oth Hne.
+    + intros x' Hg Hr. assert (E : x' = cx_state (cx_brun x false) 1).
+      { unfold on_paused in Hg. destruct (x_mod x); simpl in Hg; rewrite get_set_same in Hg; congruence. }
+      subst x'. simpl in Hr |- *. specialize (Hb Hr). split; [lia|intros; lia].
+Qed.
+
+Lemma NR_end_block c s dt : QInv s -> NR s -> NR (end_block c s dt).
+Proof.
+  intros Hinv Hn. unfold end_block. cbv zeta.
+  set (s1 := fold_left (expired_batch_handler c) _ s).
+  assert (H1 : (QInv s1 /\ height s1 = height s) /\ NR s1).
+  { subst s1. apply (fold_handlers (fun t => (QInv t /\ height t = height s) /\ NR t) (expired_batch_handler c)
+                      (fun t id => In (height t, id) (expq t))).
+    - intros t id ((Ht & Hh) & Tn) Hpre. destruct (QInv_expired_handler c t id Ht Hpre) as (A & B & C).
+      split; [split; [split; [exact A|congruence]|apply NR_expired_handler; exact Tn]|]. intros id' Hne Hp. rewrite B. apply C; assumption.
+    - apply due_NoDup. exact (q_exp_nodup _ Hinv).
+    - split; [split; [exact Hinv|reflexivity]|exact Hn].
+    - intros id Hin. apply due_in in Hin. exact Hin. }
+  destruct H1 as ((H1 & Hh1) & N1).
+  set (s2 := fold_left new_batch_handler _ s1).
+  assert (H2 : (QInv s2 /\ height s2 = height s1) /\ NR s2).
+  { subst s2. apply (fold_handlers (fun t => (QInv t /\ height t = height s1) /\ NR t) new_batch_handler
+                      (fun t id => In (height t, id) (newq t))).
+    - intros t id ((Ht & Hh) & Tn) Hpre. destruct (QInv_new_handler t id Ht Hpre) as (A & B & C).
+      split; [split; [split; [exact A|congruence]|apply NR_new_handler; assumption]|]. intros id' Hne Hp. rewrite B. apply C; assumption.
+    - apply due_NoDup. exact (q_new_nodup _ H1).
+    - split; [split; [exact H1|reflexivity]|exact N1].
+    - intros id Hin. apply due_in in Hin. exact Hin. }
+  eapply NR_same; [| |exact (proj2 H2)]; reflexivity.
+Qed.
+
+Lemma NR_apply c s st : QInv s -> NR s -> NR (apply c s st).
+Proof.
+  intros Hq Hn. unfold apply. destruct (exec_step c s st) as [s'| |] eqn:E; try exact Hn.
+  destruct st; cbn [exec_step] in E.
+  - eapply NR_exec_msg; eassumption.
+  - destruct (0 <=? dt); [|discriminate]. inversion E; subst. apply NR_end_block; assumption.
+  - inversion E; subst. eapply NR_same; [| |exact Hn]; reflexivity.
+  - revert Hn. nr_same E.
+  - destruct (create_context _ _ _ _ _ _ _ _ _ _ _ _ _ _ _ _) as [[s1 id]|] eqn:E1; [|discriminate].
+    inversion E; subst. eapply NR_create; eassumption.
+  - eapply NR_pause; eassumption.
+  - eapply NR_start; eassumption.
+  - eapply NR_kill; eassumption.
+  - unfold bind in E. revert Hn. nr_same E.
+Qed.
+
+Lemma reach_NR c steps h0 t0 l0 : NoDup (create_txhs steps) -> NR (run c (init h0 t0 l0) steps).
+Proof.
+  intros Hnd. pose proof (fresh_history_from_distinct_hashes_lemma c steps h0 t0 l0 Hnd) as Hf.
+  assert (G : SInv (run c (init h0 t0 l0) steps) /\ NR (run c (init h0 t0 l0) steps)).
+  { apply (run_inv_fresh (fun s => SInv s /\ NR s) c).
+    - intros s st F (S & N). split; [apply SInv_apply_m; assumption|apply NR_apply; [exact (proj1 S)|exact N]].
+    - exact Hf.
+    - split; [apply SInv_init|]. constructor; intros id x Hg; simpl in Hg; discriminate. }
+  exact (proj2 G).
+Qed.
+
+Lemma phase1_miss c id : forall ids t, ~ In id ids ->
+  get id (ctxs (fold_left (expired_batch_handler c) ids t)) = get id (ctxs t).
+Proof.
+  induction ids as [|a ids IH]; cbn [fold_left]; intros t Hn; [reflexivity|]. simpl in Hn.
+  rewrite IH by tauto. apply expired_handler_ctx_other. intros ->. tauto.
+Qed.
+
+Lemma phase1_hit c id x : forall ids t, NoDup ids -> In id ids ->
+  get id (ctxs t) = Some x -> x_rep x = false -> x_state x = 0 ->
+  get id (ctxs (fold_left (expired_batch_handler c) ids t)) = None.
+Proof.
+  induction ids as [|a ids IH]; cbn [fold_left]; intros t Hnd Hin Hg Hr Hs; [contradiction|].
+  inversion Hnd as [|? ? Hn Hnd']; subst. destruct (eq_dec a id) as [->|Hne].
+  - rewrite (phase1_miss c id ids _ Hn). destruct (batch_expiry_lemma c t id x Hg Hs) as (A & _). cbv zeta in A. apply A. rewrite Hr. reflexivity.
+  - destruct Hin as [E|Hin]; [congruence|]. apply IH; try assumption.
+    rewrite expired_handler_ctx_other by (intros E; apply Hne; symmetry; exact E). exact Hg.
+Qed.
+
+Lemma phase2_none id : forall ids t, get id (ctxs t) = None -> get id (ctxs (fold_left new_batch_handler ids t)) = None.
+Proof.
+  intros ids t H. apply (fold_left_inv (fun t => get id (ctxs t) = None)); [|exact H].
+  intros t0 id' H0. destruct (eq_dec id id') as [<-|Hne]; [|rewrite new_handler_ctx_other by exact Hne; exact H0].
+  unfold new_batch_handler. rewrite H0. exact H0.
+Qed.
+
+Lemma end_block_oneshot c s dt id x :
+  QInv s -> LInv false s -> get id (ctxs s) = Some x -> x_rep x = false -> x_state x = 0 ->
+  get id (expmark s) = Some (height s) -> get id (ctxs (end_block c s dt)) = None.
+Proof.
+  intros Hq Hl Hg Hr Hs Hm. unfold end_block. cbv zeta. cbn [ctxs with_iidx with_time with_height].
+  apply phase2_none. apply (phase1_hit c id x); try assumption.
+  - apply due_NoDup. exact (q_exp_nodup _ Hq).
+  - apply due_in. exact (proj1 (l_mark _ _ Hl id _ Hm)).
+Qed.
+
+Theorem model_passes_C08_clause_3_lemma :
+  forall c steps st h0 t0 l0 univ seen fired tr sc pcode pnc pcb,
+    NoDup (create_txhs (steps ++ [st])) -> good_step st ->
+    let s := run c (init h0 t0 l0) steps in
+    holds_C08 seen fired tr sc (obs_of univ pcode pnc pcb s) st (obs_step univ c s st) <> 3.
+Proof.
+  intros c steps st h0 t0 l0 univ seen fired tr sc pcode pnc pcb Hnd1 Hgood s E.
+  assert (Hnd0 : NoDup (create_txhs steps)) by (rewrite create_txhs_app in Hnd1; exact (NoDup_app_l _ _ Hnd1)).
+  assert (Es : apply c s st = run c (init h0 t0 l0) (steps ++ [st])) by (rewrite run_snoc; reflexivity).
+  pose proof (fresh_history_from_distinct_hashes_lemma c steps h0 t0 l0 Hnd0) as Hf.
+  assert (G : SL s) by (subst s; apply (run_inv_fresh SL c); [intros; apply SL_apply_m; assumption|exact Hf|split; [apply SInv_init|apply LInv_init]]).
+  destruct G as ((Hq & Hb) & Hl).
+  pose proof (reach_K c steps h0 t0 l0) as Hk. fold s in Hk.
+  pose proof (reach_K c (steps ++ [st]) h0 t0 l0) as Hk'. rewrite <- Es in Hk'.
+  pose proof (reach_NR c (steps ++ [st]) h0 t0 l0 Hnd1) as Hn'. rewrite <- Es in Hn'.
+  apply first_fail_in in E; [|lia]. unfold holds_C08 in E; cbv zeta in E.
+  do 5 (split_seg E; [not_here E|]).
+  split_seg E.
+  { apply in_map_iff in E. destruct E as ([id xt] & E & Hin). injection E as E.
+    destruct (in_obs_ctxs univ _ _ _ s _ Hk Hin) as (x & Hg & Ex). cbn [fst snd] in Hg, Ex. subst xt.
+    unfold obs_step in E. cbn [obs_of o_ctxs o_expmark o_height] in E. rewrite (has_map_val ctx_tuple) in E.
+    cbn [ctx_tuple t_rep t_brun t_state] in E.
+    destruct (x_rep x) eqn:Er; [discriminate E|]. cbn [orb] in E.
+    destruct st as [|dt| | | | | | |]; cbn [is_endblock andb negb orb] in E; try discriminate E.
+    destruct (x_brun x); cbn [andb negb orb] in E; [|discriminate E].
+    destruct (x_state x =? 0) eqn:Est; cbn [andb negb orb] in E; [|discriminate E]. apply Z.eqb_eq in Est.
+    destruct (eqb (get id (expmark s)) (Some (height s))) eqn:Em; cbn [andb negb orb] in E; [|discriminate E].
+    apply (proj1 (eqb_true_iff _ _)) in Em.
+    simpl in Hgood. unfold apply in E. cbn [exec_step] in E. destruct (0 <=? dt) eqn:Ed; [|apply Z.leb_gt in Ed; lia].
+    unfold has in E. rewrite (end_block_oneshot c s dt id x Hq Hl Hg Er Est Em) in E. discriminate E. }
+  split_seg E; [|not_here E].
+  apply in_map_iff in E. destruct E as ([id xt] & E & Hin). injection E as E.
+  unfold obs_step in Hin. destruct (in_obs_ctxs univ _ _ _ (apply c s st) _ Hk' Hin) as (x' & Hg & Ex). cbn [fst snd] in Hg, Ex, E. subst xt.
+  cbn [ctx_tuple t_rep t_batch] in E. destruct (x_rep x') eqn:Er; [discriminate E|]. cbn [orb] in E.
+  pose proof (n_b _ Hn' id x' Hg Er) as Hle. apply Z.leb_le in Hle. rewrite Hle in E. discriminate E.
+Qed.
+
+(** [model_passes_clauses] with clause 3 *)
+Definition ok8s (k : Z) : Prop := k <> 1 /\ k <> 2 /\ k <> 3 /\ k <> 5 /\ k <> 6 /\ k <> 8 /\ k <> 9.
+
+Theorem model_passes_clauses_C08_3_lemma :
+  forall c steps h0 t0 l0 univ,
+    c_msvc c < 0 -> 0 <= c_tax c -> clean l0 -> NoDup (create_txhs steps) -> Forall good_step steps ->
+    In (DEP, BASE) univ -> (forall d, In d (denoms c) -> In (REQ, d) univ) ->
+    (forall pre st post, steps = pre ++ st :: post -> forall rid q, get rid (reqs (run c (init h0 t0 l0) pre)) = Some q ->
+       In (TAX, q_fd q) univ /\ In (REQ, q_fd q) univ) ->
+    ledger_of (obs_of univ 0 None [] (init h0 t0 l0)) = l0 ->
+    forall corr p k, check_case_C08 (model_case univ c h0 t0 l0 steps) = (corr, p, k) ->
+      corr = -1 /\ k <> 1 /\ k <> 2 /\ k <> 3 /\ k <> 5 /\ k <> 6 /\ k <> 8 /\ k <> 9.
+Proof.
+  intros c steps h0 t0 l0 univ Hm Htax Hcl Hnd Hgood Hu1 Hu2 Hu5 Hl corr p k Ek.
+  destruct (model_corresponds_to_itself_lemma c steps h0 t0 l0 univ Hnd Hl) as (_ & C8). cbv zeta in C8.
+  split; [exact (C8 corr p k Ek)|].
+  pose proof (model_step_ok c steps h0 t0 l0 univ Hm Htax Hcl Hnd Hgood Hu1 Hu2 Hu5) as H.
+  assert (H3 : forall pre st post, steps = pre ++ st :: post ->
+            step_okq ok7 ok8s univ c (run c (init h0 t0 l0) pre) (model_seen univ c (init h0 t0 l0) [] pre) st).
+  { intros pre st post E pc pn pb fired tr sc. destruct (H pre st post E pc pn pb fired tr sc) as (K7 & K1 & K2 & K5 & K6 & K8 & K9).
+    split; [exact K7|]. split; [exact K1|]. split; [exact K2|]. split; [|split; [exact K5|split; [exact K6|split; [exact K8|exact K9]]]].
+    assert (Hnd1 : NoDup (create_txhs (pre ++ [st]))).
+    { rewrite E in Hnd. replace (pre ++ st :: post) with ((pre ++ [st]) ++ post) in Hnd by (rewrite <- app_assoc; reflexivity).
+      rewrite create_txhs_app in Hnd. exact (NoDup_app_l _ _ Hnd). }
+    assert (Hg : good_step st) by (apply (proj1 (Forall_forall _ _) Hgood); rewrite E; apply in_elt).
+    exact (model_passes_C08_clause_3_lemma c pre st h0 t0 l0 univ _ fired tr sc pc pn pb Hnd1 Hg). }
+  pose proof (check_from_clauses_q ok7 ok8s univ c steps (init h0 t0 l0) [] H3 0 None [] [] [] [] 1
+                (if corr_state (init h0 t0 l0) (obs_of univ 0 None [] (init h0 t0 l0)) then -1 else 0) (-1) 0 (-1) 0) as G.
+  assert (E : check_all (model_case univ c h0 t0 l0 steps) = check_from c (init h0 t0 l0) (obs_of univ 0 None [] (init h0 t0 l0)) [] [] [] [] (model_trace univ c (init h0 t0 l0) steps) 1
+                (if corr_state (init h0 t0 l0) (obs_of univ 0 None [] (init h0 t0 l0)) then -1 else 0) (-1) 0 (-1) 0).
+  { unfold check_all, model_case. rewrite Hl. reflexivity. }
+  unfold check_case_C08 in Ek. rewrite E in Ek.
+  destruct (check_from _ _ _ _ _ _ _ _ _ _ _ _ _ _) as [[[[r1 r2] r3] r4] r5]. inversion Ek; subst.
+  destruct G as (_ & [->|G8]); [repeat split; discriminate|exact G8].
+Qed.
